@@ -29,7 +29,7 @@ TraceNext ==
             ELSE /\ (IF x.octets = e.obs.octets THEN TRUE ELSE Bad(e, "octets"))
                  /\ (IF x.plen = e.obs.plen THEN TRUE ELSE Bad(e, "len.reported"))
                  /\ (IF x.cached = e.obs.cached THEN TRUE ELSE Bad(e, "len.field"))
-                 /\ (IF e.obs.fresh /\ e.obs.again /\ e.obs.eq /\ e.obs.caller THEN TRUE ELSE Bad(e, "purity")))
+                 /\ (IF e.obs.fresh /\ e.obs.again /\ e.obs.eq /\ e.obs.caller /\ e.obs.spview /\ e.obs.sibling THEN TRUE ELSE Bad(e, "purity")))
         /\ kind' = s.k /\ o' = s.o
   /\ (l = Len(Tr) => PrintT("DONE " \o ToString(l)))
   /\ l' = l + 1
